@@ -16,6 +16,84 @@ def demo : Config := { initial := 100, max := 400, cap := some 2 }
 /-- no cap -/
 def demo0 : Config := { initial := 100, max := 400, cap := none }
 
+/-! ### the model is the source (T1)
+
+`KitModel/Generated/C09.lean` is rewritten from `/repo/events/ratelimiting/coalescing.go` on every
+run.  The model *executes* the extracted guard/assignment blocks; the theorem below states what
+they compute (so a changed comparison, factor, conversion, reset value or timer argument breaks
+it) and pins the control structure the labels of the LTS were written against. -/
+
+/-- What the extracted blocks compute, and the shape of the surrounding control flow. -/
+theorem source_shape_as_modelled :
+    -- fireEvent: `if pendingEvents > 0 { pendingEvents = 0; wg.Add(1); go send|ctx.Done }`
+    (∀ cfg s, fire cfg s =
+      if 0 < s.pending then { s with pending := 0, fires := s.fires + 1, senders := s.senders + 1 } else s) ∧
+    Kit.Generated.C09.fireRest =
+      ["c.wg.Add(1)", "go func() { defer c.wg.Done() select { case ch <- struct{}{}: case <-ctx.Done(): } }()"] ∧
+    -- cap test: `maxPendingEvents != nil && pendingEvents >= *maxPendingEvents` ⇒ fireEvent; return
+    (∀ cfg s, capReached cfg s = match cfg.cap with | none => false | some m => decide (m ≤ s.pending)) ∧
+    Kit.Generated.C09.capNilCheck = "c.maxPendingEvents != nil" ∧
+    Kit.Generated.C09.capBody = ["c.fireEvent(ctx, ch)", "return"] ∧
+    -- back-off: `if cur < max { factor *= 2; cur = Duration(float64(initial)*float64(factor)); if cur > max { cur = max } }`
+    (∀ cfg cur factor, backoffVals cfg cur factor =
+      if cur < cfg.max then
+        (if cfg.max < f64OfNat cfg.initial * (factor * 2) then cfg.max else f64OfNat cfg.initial * (factor * 2),
+         factor * 2,
+         decide (int64Lim ≤ factor * 2) || decide (int64Lim ≤ f64OfNat cfg.initial * (factor * 2)))
+      else (cur, factor, false)) ∧
+    -- reset: pending 0, currentDur = initialDelay, backoffFactor = 1, no timer
+    (∀ cfg s, handleTimer cfg s =
+      { fire cfg s with pending := 0, cur := cfg.initial, factor := 1, timer := none, loop := .top, wk := 0 }) ∧
+    Kit.Generated.C09.resetShape =
+      ["if !c.timer.Stop() { select { case <-c.timer.C(): default: } }", "<field assignment>",
+       "<field assignment>", "<field assignment>", "c.hasTimer.Store(false)", "c.timer = nil"] ∧
+    Kit.Generated.C09.timerFiredBody =
+      ["c.lock.Lock()", "defer c.lock.Unlock()", "c.fireEvent(ctx, ch)", "c.reset()"] ∧
+    -- timers: NewTimer(initialDelay) on the first token, Reset(currentDur) afterwards
+    (∀ cfg e, Kit.Generated.C09.newTimerArg.eval cfg e = cfg.initial) ∧
+    (∀ cfg e, Kit.Generated.C09.resetTimerArg.eval cfg e = e.cur) ∧
+    Kit.Generated.C09.inputLocking = ["c.lock.Lock()", "defer c.lock.Unlock()"] ∧
+    Kit.Generated.C09.inputFirstCond = "!c.hasTimer.Load()" ∧
+    Kit.Generated.C09.inputFirstBranch =
+      ["c.timer = c.clock.NewTimer(c.initialDelay)", "c.hasTimer.Store(true)", "c.fireEvent(ctx, ch)"] ∧
+    Kit.Generated.C09.stopDrain = "if !c.timer.Stop() { <-c.timer.C() }" ∧
+    Kit.Generated.C09.resetTimerCall = "c.timer.Reset(c.currentDur)" ∧
+    -- NewCoalescing: validation = ¬Config.valid, initial field values, unbuffered channels
+    Kit.Generated.C09.validationGuards =
+      ["initialDelay <= 0", "maxDelay <= 0", "maxDelay < initialDelay",
+       "opts.MaxPendingEvents != nil && *opts.MaxPendingEvents <= 0"] ∧
+    (∀ cfg, init cfg = { cur := cfg.initial }) ∧
+    Kit.Generated.C09.inputChMake = "make(chan struct{})" ∧
+    Kit.Generated.C09.closeChMake = "make(chan struct{})" ∧
+    -- Add: one critical section; closed ⇒ nothing; else pendingEvents++, wg.Add(1), token goroutine
+    (∀ cfg s, step cfg s .add =
+      if s.closed then some s
+      else some { s with pending := s.pending + 1, tokens := s.tokens + 1, adds := s.adds + 1 }) ∧
+    Kit.Generated.C09.addShape =
+      ["c.lock.Lock()", "defer c.lock.Unlock()", "if c.closed.Load() { return }", "<field assignment>",
+       "c.wg.Add(1)",
+       "go func() { defer c.wg.Done() select { case c.inputCh <- struct{}{}: case <-c.closeCh: } }()"] ∧
+    -- Close (after the repair): closed set under the lock, lock released, then wg.Wait
+    Kit.Generated.C09.closeOrder =
+      ["c.lock.Lock()", "if c.closed.CompareAndSwap(false, true) { close(c.closeCh) }", "c.lock.Unlock()",
+       "c.wg.Wait()"] ∧
+    -- Run: prologue (closed ⇒ return before wg.Add), loop head, the four select cases
+    Kit.Generated.C09.runPrologue =
+      ["if !c.running.CompareAndSwap(false, true) { return errors.New(\"already running\") }",
+       "c.lock.Lock()", "if c.closed.Load() { c.lock.Unlock() return nil }", "c.wg.Add(1)",
+       "c.lock.Unlock()", "defer c.wg.Done()", "ctx, cancel := context.WithCancel(ctx)", "defer cancel()"] ∧
+    Kit.Generated.C09.runLoopHead =
+      ["var timerCh <-chan time.Time", "c.lock.RLock()", "if c.hasTimer.Load() { timerCh = c.timer.C() }",
+       "c.lock.RUnlock()"] ∧
+    Kit.Generated.C09.runSelectCases =
+      ["<-ctx.Done() => return nil", "<-c.closeCh => cancel(); return nil",
+       "<-c.inputCh => c.handleInputCh(ctx, ch); verifhook.Point(\"coalescing.inputHandled\")",
+       "<-timerCh => c.handleTimerFired(ctx, ch); verifhook.Point(\"coalescing.timerHandled\")"] ∧
+    Kit.Generated.C09.hookSites = ["coalescing.inputHandled", "coalescing.timerHandled"] :=
+  ⟨fire_def, rfl, capReached_def, rfl, rfl, backoffVals_def, handleTimer_def, rfl, rfl,
+   newTimerArg_def, resetTimerArg_def, rfl, rfl, rfl, rfl, rfl, rfl, init_def, rfl, rfl,
+   step_add_def, rfl, rfl, rfl, rfl, rfl, rfl⟩
+
 /-! ### signals never exceed Adds -/
 
 /-- Signals received ≤ signals started ≤ accepted `Add`s (minus what is still pending); every
@@ -28,7 +106,7 @@ theorem signals_le_adds {cfg : Config} (hv : cfg.valid) {s : State} (h : Reach c
 
 example : demo.valid ∧
     (exec demo (init demo) [.runCall, .run, .add, .add, .top, .deliver, .consume]).map
-      (fun s => (s.adds, s.fires, s.consumed, s.pending)) = some (2, 1, 1, 0) := by decide
+      (fun s => (s.adds, s.fires, s.consumed, s.pending)) = some (2, 1, 1, 0) := by decide +kernel
 
 /-! ### no Add is lost -/
 
@@ -44,7 +122,7 @@ theorem no_add_lost {cfg : Config} (hv : cfg.valid) {s : State} (h : Reach cfg s
 
 example : (exec demo0 (init demo0) [.runCall, .run, .top, .add, .deliver, .add, .top, .deliver]).map
       (fun s => (s.running, s.closed, s.pending, s.timer, s.tokens)) =
-    some (true, false, 1, some 200, 0) := by decide
+    some (true, false, 1, some 200, 0) := by decide +kernel
 
 /-! ### the first Add after an idle period is signalled immediately -/
 
@@ -85,11 +163,10 @@ theorem late_token_window_silent {cfg : Config} {s s' : State} (htm : s.timer = 
 
 example : (exec demo0 (init demo0) [.runCall, .run, .top, .add, .deliver, .top, .add, .advance 100, .expire, .top]).map
       (fun s => (s.timer, s.pending, s.tokens, s.fires, (step demo0 s .deliver).isSome)) =
-    some (none, 0, 1, 2, true) := by decide
+    some (none, 0, 1, 2, true) := by decide +kernel
 
-example : ∃ s, exec demo (init demo) [.runCall, .run, .top, .add, .deliver, .advance 100, .top, .expire, .top] = some s ∧
-    Idle s ∧ s.fires = 1 := by
-  refine ⟨_, rfl, ?_⟩; decide
+example : (exec demo (init demo) [.runCall, .run, .top, .add, .deliver, .advance 100, .top, .expire, .top]).any
+    (fun s => decide (Idle s ∧ s.fires = 1)) = true := by decide +kernel
 
 /-! ### a burst inside one window yields a single signal, at its end -/
 
@@ -120,10 +197,13 @@ theorem burst_one_signal {cfg : Config} (hcap : cfg.cap = none) {s s' s'' : Stat
   · have : ¬ (0 < s.pending ∨ s.adds < s'.adds) := by omega
     simp [hp, this]
 
-example : ∃ s s' s'', exec demo0 (init demo0) [.runCall, .run, .top, .add, .deliver] = some s ∧
-    exec demo0 s [.add, .add, .top, .deliver, .advance 150, .add, .top, .deliver, .top, .deliver, .advance 600, .top] = some s' ∧
-    step demo0 s' .expire = some s'' ∧ s.timer.isSome = true ∧ s.fires = 1 ∧ s'.adds = 4 ∧ s''.fires = 2 := by
-  refine ⟨_, _, _, rfl, rfl, rfl, ?_⟩; decide
+/-- hypotheses of `burst_one_signal` are satisfiable: window opened by a first add (1 signal), three
+adds and two clock moves inside it without a signal, the expiry gives the second signal. -/
+example : ((exec demo0 (init demo0) [.runCall, .run, .top, .add, .deliver]).bind fun s =>
+    (exec demo0 s [.add, .add, .top, .deliver, .advance 150, .add, .top, .deliver, .top, .deliver, .advance 600, .top]).bind fun s' =>
+    (step demo0 s' .expire).map fun s'' =>
+      decide (s.timer.isSome = true ∧ s.fires = 1 ∧ s'.fires = 1 ∧ s'.adds = 4 ∧ s''.fires = 2 ∧ s''.timer = none)) = some true := by
+  decide +kernel
 
 /-! ### the window doubles from the initial delay up to the maximum -/
 
@@ -150,7 +230,7 @@ theorem window_steps {cfg : Config} {s s' : State} (hst : step cfg s .deliver = 
 
 example : (exec demo0 (init demo0) [.runCall, .run, .top, .add, .deliver, .add, .top, .deliver,
       .add, .top, .deliver, .add, .top, .deliver]).map (fun s => (s.wk, s.cur, s.factor, s.ovf)) =
-    some (3, 400, 4, false) := by decide
+    some (3, 400, 4, false) := by decide +kernel
 
 /-! ### MaxPendingEvents reached ⇒ fires without waiting -/
 
@@ -167,7 +247,7 @@ theorem cap_fires_now {cfg : Config} (hv : cfg.valid) {s : State} (h : Reach cfg
 example : (exec demo (init demo) [.runCall, .run, .top, .add, .deliver, .add, .top, .deliver, .add]).map
       (fun s => (s.pending, s.tokens, s.timer, s.now, s.fires)) = some (2, 1, some 200, 0, 1) ∧
     (exec demo (init demo) [.runCall, .run, .top, .add, .deliver, .add, .top, .deliver, .add, .top, .deliver]).map
-      (fun s => (s.pending, s.tokens, s.timer, s.now, s.fires)) = some (0, 0, some 200, 0, 2) := by decide
+      (fun s => (s.pending, s.tokens, s.timer, s.now, s.fires)) = some (0, 0, some 200, 0, 2) := by decide +kernel
 
 /-! ### an Add handled at `t` with an open window is signalled by `t + cur` -/
 
@@ -186,10 +266,10 @@ theorem deadline_bound {cfg : Config} {s s' : State} (hopen : s.timer.isSome = t
       s''.fires = s.fires + 1 ∧ s''.now = s.now + s'.cur ∧ s''.pending = 0 :=
   deadline_bound_aux hopen hnc hst hp
 
-example : ∃ s s', exec demo0 (init demo0) [.runCall, .run, .top, .add, .deliver, .add, .top, .advance 30] = some s ∧
-    step demo0 s .deliver = some s' ∧ s.timer.isSome = true ∧ capReached demo0 s = false ∧ 0 < s.pending ∧
-    s'.timer = some 230 := by
-  refine ⟨_, _, rfl, rfl, ?_⟩; decide
+example : ((exec demo0 (init demo0) [.runCall, .run, .top, .add, .deliver, .add, .top, .advance 30]).bind fun s =>
+    (step demo0 s .deliver).map fun s' =>
+      (s.timer.isSome, capReached demo0 s, s.pending, s'.timer)) = some (true, false, 1, some 230) := by
+  decide +kernel
 
 /-! ### the back-off arithmetic stays inside int64 -/
 
@@ -211,7 +291,7 @@ theorem noOvf_of_small {cfg : Config} (h1 : cfg.initial < 2 ^ 53) (h2 : cfg.max 
   exact Nat.lt_trans h1 (by decide)
 
 example : NoOvf { initial := 2 ^ 62 - 257, max := 2 ^ 62 - 1, cap := none } ∧
-    ({ initial := 2 ^ 62 - 257, max := 2 ^ 62 - 1, cap := none } : Config).valid := by decide
+    ({ initial := 2 ^ 62 - 257, max := 2 ^ 62 - 1, cap := none } : Config).valid := by decide +kernel
 
 /-- Why `initial ≤ max < 2^62` alone is not enough: `float64(2^62 − 2) = 2^62`, so with
 `InitialDelay = 2^62 − 2 ns`, `MaxDelay = 2^62 − 1 ns` the second token of a window computes
@@ -220,7 +300,7 @@ theorem backoff_overflow_witness :
     let cfg : Config := { initial := 2 ^ 62 - 2, max := 2 ^ 62 - 1, cap := none }
     cfg.valid ∧ cfg.max < 2 ^ 62 ∧ f64OfNat cfg.initial = 2 ^ 62 ∧
     (exec cfg (init cfg) [.runCall, .run, .top, .add, .deliver, .add, .top, .deliver]).map (·.ovf) = some true := by
-  decide
+  decide +kernel
 
 /-! ### Close returns only when all helper goroutines have finished -/
 
@@ -254,7 +334,7 @@ theorem close_returns {cfg : Config} (hv : cfg.valid) {s : State} (h : Reach cfg
   close_returns_aux (inv_reach hv s h) hw
 
 example : (exec demo (init demo) [.runCall, .run, .top, .add, .add, .deliver, .close]).map
-      (fun s => (s.closeWaiting, s.tokens, s.senders, s.running)) = some (1, 1, 1, true) := by decide
+      (fun s => (s.closeWaiting, s.tokens, s.senders, s.running)) = some (1, 1, 1, true) := by decide +kernel
 
 /-- The code before the repair (`Close` waited for the wait group while holding `c.lock`): after
 `Add; deliver` the run loop is at its head; a `Close` arriving there leaves *no* enabled
